@@ -15,7 +15,7 @@ import (
 
 func init() {
 	mc.Register(&mc.Check{ID: "C14", Category: "exploration",
-		Rule:   "cases: every policy message from the product/pairs of per-field states (each of the 11 byte-string fields absent/empty/right size/one short/one long and all pairs of such deviations; SVN minima at 0,1,65535,65536,2^32-1; RTMR lists of length 0..5 over empty/full/short entries; allowed-MR_TD lists of length 0..3; sub-policies absent/empty; nil policy), each converted and, when it converts, evaluated on ~40 quotes (satisfying, missing exactly one field, SVN just below each minimum). Non-trivial: a policy with at least one field set; distinct by id",
+		Rule:   "cases: every policy message from the product/pairs of per-field states (each of the 11 byte-string fields absent/empty/right size/one short/one long and all pairs of such deviations; SVN minima at 0,1,65535,65536,2^32-1; RTMR lists of length 0..5 over empty/full/short entries; allowed-MR_TD lists of length 0..3; sub-policies absent/empty; nil policy), each converted and, when it converts, evaluated on 259 quotes (satisfying, missing exactly one field, SVN just below each minimum, every ordered pair of TEE TCB SVN components one below / one above). Non-trivial: a policy with at least one field set; distinct by id",
 		Assume: []string{"the reference reads the policy message literally with the same semantics as C08 (harness/ref/policy.go)"},
 		Run:    runC14})
 }
